@@ -13,6 +13,12 @@ import time
 def payload(i):
     # every third example is larger than diskcache's 32 KiB inline limit and is
     # therefore written as a separate file before its row is committed
+    if i % 7 == 1:
+        return None           # falsy / None examples are legitimate values
+    if i % 7 == 5:
+        return 0
+    if i % 7 == 4:
+        return ''
     size = 9000 if i % 3 == 0 else 3 + i % 5
     return {'id': i, 'payload': [i] * size, 'text': f'example-{i}'}
 
